@@ -521,7 +521,14 @@ class Evaluator:
                 self.assign(sub, iv, st, node)
         elif isinstance(t, ast.Attribute):
             base = self.eval(t.value, st)
-            if isinstance(base, Obj):
+            setter = self.prog.find_method(base.cls, t.attr + '.setter') if isinstance(base, Obj) else None
+            if setter is not None and self.depth < self.max_depth:
+                # assignment to a property: its setter runs
+                self._invoke(setter, st, [v], {}, None, base, node)
+            elif isinstance(base, Obj):
+                getter = self.prog.find_method(base.cls, t.attr)
+                if getter is not None and getter.is_property:
+                    self.issue(st, node, f"assignment to the read-only property {t.attr} of {base.cls.qualname}")
                 st.heap.setdefault(base.oid, {})[t.attr] = v
                 self.emit('field', st, node, obj=base, field=t.attr, value=v)
             else:
@@ -746,7 +753,20 @@ class Evaluator:
             if isinstance(b, Obj):
                 st.heap.setdefault(b.oid, {})[target_expr.attr] = newv
 
+    def namedtuple_items(self, v: Val, st) -> Optional[List[Val]]:
+        """the fields, in order, of an instance of a typing.NamedTuple class of the repository (a tuple: it unpacks, stars and indexes by position)"""
+        if not isinstance(v, Obj) or not any(ast.unparse(b).endswith('NamedTuple') for b in v.cls.node.bases):
+            return None
+        names = [n_.target.id for n_ in v.cls.node.body if isinstance(n_, ast.AnnAssign) and isinstance(n_.target, ast.Name)]
+        fields = st.heap.get(v.oid, {})
+        if not names or any(nm not in fields for nm in names):
+            return None
+        return [fields[nm] for nm in names]
+
     def unpack(self, v: Val, n: int, st, node) -> List[Val]:
+        nt = self.namedtuple_items(v, st)
+        if nt is not None and len(nt) == n:
+            return nt
         if isinstance(v, Tup) and len(v.items) == n:
             return list(v.items)
         if isinstance(v, Gam):
@@ -2484,7 +2504,10 @@ class Evaluator:
         for a in e.args:
             if isinstance(a, ast.Starred):
                 v = self.eval(a.value, st)
-                if isinstance(v, Tup):
+                nt = self.namedtuple_items(v, st)
+                if nt is not None:
+                    pos.extend(nt)
+                elif isinstance(v, Tup):
                     pos.extend(v.items)
                 else:
                     pos.append(Term('star', (v,)))
